@@ -93,6 +93,7 @@ var renderableBytesRE = regexp.MustCompile(`^[\a\x08\x1b\f\n\r\t\v -~]+$`)
 func (b Bytes) Format(f fmt.State, verb rune) {
 	switch verb {
 	case 'v':
+		reprOffset(b.offset, f)
 		fu.WriteString(f, "<<")
 		if renderableBytesRE.Match(b.b) {
 			reprStr(string(b.b), f)
